@@ -74,6 +74,12 @@ void bn_mod_inv_sim(bn_t *c, const bn_t *a, const bn_t b, int n) {
 	int i;
 	bn_t u, *t = RLC_ALLOCA(bn_t, n);
 
+	if (n == 0) {
+		/* Nothing to invert in an empty list. */
+		RLC_FREE(t);
+		return;
+	}
+
 	bn_null(u);
 
 	RLC_TRY {
